@@ -725,6 +725,15 @@ func (s *Store) flushTick() {
 }
 
 func (s *Store) commit() (types.Work, error) {
+	// Only the freelist entries that exist now are written at the end. An
+	// entry is put on the freelist after the index stopped referring to the
+	// location, so for these entries that index change is flushed below.
+	// The index change of an entry that arrives later, while this commit is
+	// already running, may miss the index flush. If the entry were written
+	// anyway, and the process crashed, GC would delete a record that the index
+	// on disk still refers to.
+	freed := s.freelist.Pending()
+
 	primaryWork, err := s.index.Primary.Flush()
 	if err != nil {
 		return 0, err
@@ -735,7 +744,7 @@ func (s *Store) commit() (types.Work, error) {
 		return 0, err
 	}
 	vhook.At("store.commit.after-index")
-	flWork, err := s.freelist.Flush()
+	flWork, err := s.freelist.FlushN(freed)
 	if err != nil {
 		return 0, err
 	}
